@@ -77,11 +77,12 @@ def cases(tier, seed):
 
 # ------------------------------------------------------------------ child
 
-def _run(cfg, want_field=True):
+def _run(cfg, want_field=True, th=None):
     from holopy.scattering import calc_holo, calc_field
     o = cfg["optics"]
     s = scat.build_scatterer(cfg["scat"])
-    th = scat.build_theory(cfg["theory"])
+    if th is None:
+        th = scat.build_theory(cfg["theory"])
     det = scat.build_detector(cfg["det"])
     a = dict(medium_index=o["medium_index"], illum_wavelen=o["illum_wavelen"], illum_polarization=o["illum_polarization"])
     h = calc_holo(det, s, theory=th, scaling=0.8, **a)
@@ -98,26 +99,29 @@ def _run_cov(case):
     cfg = case["cfg"]
     tm = cfg["theory"]["t"] == "Tmatrix"
     resid = {}
-    h0, f0 = _run(cfg)
+    # one theory object serves every call of the case, as in ordinary use (stale per-object state must not leak
+    # from one configuration into the next); every other case builds a fresh object per call
+    shared = scat.build_theory(cfg["theory"]) if int(case["id"].split("-")[1]) % 2 == 0 else None
+    h0, f0 = _run(cfg, th=shared)
     # ---- shift on the detector as given
     if cfg["det"]["t"] == "grid":
         sp = cfg["det"]["spacing"]
         dx, dy = case["pix"][0] * sp[0], case["pix"][1] * sp[1]
     else:
         dx, dy = case["shift"]
-    h1, f1 = _run(scat.shift_config(cfg, dx, dy))
+    h1, f1 = _run(scat.shift_config(cfg, dx, dy), th=shared)
     resid["shift_holo"] = relmax(h1.values, h0.values)
     resid["shift_field"] = relmax(f1.values, f0.values)
     # ---- rotation / mirror on a point detector with the same locations
     pc = dict(cfg)
     if cfg["det"]["t"] == "grid":
         pc["det"] = scat.grid_to_points(cfg["det"])
-    hp_, fp_ = _run(pc)
+    hp_, fp_ = _run(pc, th=shared)
     if cfg["det"]["t"] == "grid":
         # grid vs points at identical positions (also C07) -- only recorded here
         resid["points_vs_grid"] = relmax(hp_.values.ravel(), h0.transpose("x", "y", "z").values.ravel())
     al = case["alpha"]
-    hr, fr = _run(scat.rotate_config(pc, al, rotate_pol=not tm))
+    hr, fr = _run(scat.rotate_config(pc, al, rotate_pol=not tm), th=shared)
     resid["rot_holo"] = relmax(hr.values, hp_.values)
     c, s_ = math.cos(al), math.sin(al)
     F = fp_.values     # (point, vector)
@@ -126,7 +130,7 @@ def _run_cov(case):
     else:
         exp = np.stack([c * F[:, 0] - s_ * F[:, 1], s_ * F[:, 0] + c * F[:, 1], F[:, 2]], axis=1)
     resid["rot_field"] = relmax(fr.values, exp)
-    hm, fm = _run(scat.mirror_config(pc))
+    hm, fm = _run(scat.mirror_config(pc), th=shared)
     resid["mirror_holo"] = relmax(hm.values, hp_.values)
     resid["mirror_field"] = relmax(fm.values, np.stack([F[:, 0], -F[:, 1], F[:, 2]], axis=1))
     th = cfg["theory"]["t"]
